@@ -1,4 +1,4 @@
-import SqlObjVerif.Lemmas.Fail
+import SqlObjVerif.Lemmas.FailChainD
 /-!
 # C06 — a write that raises changes nothing
 
@@ -297,4 +297,563 @@ example : (step W5.sch (mkSt [[⟨1, [some 1, some 1]⟩], [⟨1, [some 1, none]
       (.createChild 1 [(0, .ok (some 2)), (1, .ok (some 1))] [(0, .ok (some 1)), (1, .ok none)]) none).1.core
       = (mkSt [[⟨1, [some 1, some 1]⟩], [⟨1, [some 1, none]⟩]] [inst 0 1 [some 1, some 1], inst 1 1 [some 1, none]]).core := by
   decide
+
+/-! ## syntactic conditions (read off the schema, the tables and `k`; no run of the model involved) -/
+
+/-- `destroySelf` of `(c, id)`: a non-inheritable victim without link rows; the first `m` classes of
+    the registry have nothing to do for it (no link rows, no referencing row); and then
+    either class `m` refuses (a row references the victim through a `cascade=False` key and the class
+    has no link rows to free first), or the injected error falls on one of the statements sent so
+    far or on the next one (also counting the join DELETEs and the restriction test of class `m`
+    when it has no link rows: `headCnt`), or `m` is the whole registry (nobody references the victim). -/
+def DestroySyn (sch : Schema) (s : St) (c id : Nat) (inj : Option Inj) : Prop :=
+  -- the injected error falls on the very first statement (any victim, inheritable or not), or
+  (hit inj 1).isSome = true ∨
+  (clsOf sch c).parent = none ∧
+  ((clsOf sch c).joins.all fun j => linksQuiet s.core j.tab j.side id) = true ∧
+  ∃ m ∈ List.range (sch.length + 1),
+    (∀ kidx ∈ List.range m, EntryPasses sch s.core c id kidx = true) ∧
+    ((m < sch.length ∧ EntryLinksQuiet sch s.core c id m = true ∧ EntryRefuses sch s.core c id m = true) ∨
+     (match inj with
+      | some i => 0 < i.k ∧ i.k ≤ (clsOf sch c).joins.length + loopCnt sch c (List.range m) +
+          headCnt sch s.core c id (List.range' m (sch.length - m)) + 1
+      | none => False) ∨
+     m = sch.length)
+
+instance (sch : Schema) (s : St) (c id : Nat) (inj : Option Inj) : Decidable (DestroySyn sch s c id inj) := by
+  unfold DestroySyn
+  cases inj <;> infer_instance
+
+theorem range_split (n m : Nat) (h : m ≤ n) : List.range n = List.range m ++ List.range' m (n - m) := by
+  rw [List.range_eq_range', List.range_eq_range']
+  have := List.range'_append (s := 0) (m := m) (n := n - m) (step := 1)
+  simp at this
+  rw [this]; congr 1; omega
+
+/-- **destroySelf, syntactic.**  Under `DestroySyn` a `destroySelf` that raises — refused, or hit by
+    the injected error — has changed nothing. -/
+theorem C06_destroy_noop_syntactic (sch : Schema) (s s' : St) (c id : Nat) (inj : Option Inj) (e : Err)
+    (hS : DestroySyn sch s c id inj) (h : step sch s (.destroy c id) inj = (s', some e)) : s'.core = s.core := by
+  rcases hS with hfirst | ⟨hpar, hown, m, hm, hpre, hstop⟩
+  · obtain ⟨e0, he0⟩ := Option.isSome_iff_exists.mp hfirst
+    obtain ⟨s1, e1, h1, hc1⟩ := HeadQuiet_destroy sch inj (fuelOf { s with n := 0, log := [] }) c id .done
+      { s with n := 0, log := [] } e0 he0
+    have : step sch s (.destroy c id) inj =
+        run sch inj (destroyProg sch (fuelOf { s with n := 0, log := [] }) c id .done) { s with n := 0, log := [] } := rfl
+    rw [this, h1] at h
+    simp only [Prod.mk.injEq] at h
+    rw [← h.1, hc1]
+  have hm' : m ≤ sch.length := by simp at hm; omega
+  rcases hstop with ⟨hlt, hl, hr⟩ | hinj | heq
+  · refine destroy_noop_syn sch inj ((s.core.tabs.map List.length).sum + 2) c id { s with n := 0, log := [] } s' e
+      (List.range m) (List.range' m (sch.length - m)) hpar (range_split _ _ hm') hown hpre (.inl ?_) h
+    obtain ⟨k, hk⟩ : ∃ k, sch.length - m = k + 1 := ⟨sch.length - m - 1, by omega⟩
+    exact ⟨m, List.range' (m + 1) k, by rw [hk, List.range'_succ], hl, hr⟩
+  · cases inj with
+    | none => exact hinj.elim
+    | some i =>
+      exact destroy_noop_syn_hit sch (some i) ((s.core.tabs.map List.length).sum + 2) c id { s with n := 0, log := [] } s' e
+        (List.range m) (List.range' m (sch.length - m)) hpar (range_split _ _ hm') hown hpre
+        ⟨i, rfl, hinj.1, by simpa [Nat.add_assoc] using hinj.2⟩ h
+  · refine destroy_noop_syn sch inj ((s.core.tabs.map List.length).sum + 2) c id { s with n := 0, log := [] } s' e
+      (List.range m) (List.range' m (sch.length - m)) hpar (range_split _ _ hm') hown hpre (.inr (.inr ?_)) h
+    subst heq; simp
+
+/-- inheritable create of a chain `L` (leaf first): every class is the inheritable child of the next;
+    the classes of the chain hold no foreign key (with a cascade policy) to one another; the recursion
+    budget covers the depth; and the id the root's INSERT is going to hand out is new: no instance /
+    registration of a class of the chain carries it, no link row mentions it, no row of ANY class
+    references it through a key with a cascade policy (`AllPass`: the classes of the chain may well
+    have dependents and related joins) -/
+def ChainSyn (sch : Schema) (s : St) (L : List (Nat × List (Nat × In))) : Prop :=
+  L ≠ [] ∧ Chain sch (L.map (·.1)) ∧ (∀ x ∈ L.map (·.1), ∀ c ∈ L.map (·.1), entryFk sch x c = []) ∧
+  L.length ≤ fuelOf s ∧
+  ∀ t ∈ L.map (·.1), t < s.core.tabs.length ∧ FreshIR s.core t (s.seqs.getD (rootOf L) 0 + 1) ∧
+    AllPass sch s.core t (s.seqs.getD (rootOf L) 0 + 1)
+
+instance chainDec (sch : Schema) : (L : List Nat) → Decidable (Chain sch L)
+  | [] => isTrue trivial
+  | [r] => by unfold Chain; infer_instance
+  | c :: p :: rest => by
+    unfold Chain
+    have := chainDec sch (p :: rest)
+    infer_instance
+
+instance (sch : Schema) (s : St) (L : List (Nat × List (Nat × In))) : Decidable (ChainSyn sch s L) := by
+  unfold ChainSyn FreshIR AllPass; infer_instance
+
+/-- **No orphan ancestor row, any depth.**  A failure of the uninjected create of an inheritable
+    chain — an invalid value, a duplicate key, NOT NULL or CHECK at ANY level's INSERT — is a no-op:
+    the rows, instances and registrations of the levels created so far are removed again by the
+    clean-up. -/
+theorem C06_inheritable_create_child_insert_failure_cleaned (sch : Schema) (s s' : St)
+    (L : List (Nat × List (Nat × In))) (e : Err) (hS : ChainSyn sch s L)
+    (h : step sch s (.createChain L) none = (s', some e)) : s'.core = s.core := by
+  obtain ⟨hne, hch, hnd, hlen, hfr⟩ := hS
+  rcases createInh_casesD sch none (fun _ => rfl) (fuelOf s) (L.map (·.1)) hnd L hne hch (fun _ h => h) hlen (fun _ => .done)
+    { s with n := 0, log := [] } hfr with ⟨s1, e1, h1, hc1⟩ | ⟨s1, h1, _, _⟩
+  · have : step sch s (.createChain L) none = run sch none (createInh sch (fuelOf s) L fun _ => .done) { s with n := 0, log := [] } := rfl
+    rw [this, h1] at h
+    simp only [Prod.mk.injEq] at h
+    rw [← h.1, hc1]
+  · have : step sch s (.createChain L) none = run sch none (createInh sch (fuelOf s) L fun _ => .done) { s with n := 0, log := [] } := rfl
+    rw [this, h1] at h
+    simp [run] at h
+
+/-- the error injected at statement 1 (the root's INSERT): nothing has happened yet; any chain -/
+theorem C06_inheritable_create_root_insert_failure_noop (sch : Schema) (s s' : St)
+    (L : List (Nat × List (Nat × In))) (inj : Option Inj) (e e0 : Err) (hne : L ≠ [])
+    (hhit : hit inj 1 = some e0)
+    (h : step sch s (.createChain L) inj = (s', some e)) : s'.core = s.core := by
+  obtain ⟨s1, e1, h1, hc1⟩ := createInh_root_hit sch inj (fuelOf s) L hne (fun _ => .done) { s with n := 0, log := [] } e0 hhit
+  have : step sch s (.createChain L) inj = run sch inj (createInh sch (fuelOf s) L fun _ => .done) { s with n := 0, log := [] } := rfl
+  rw [this, h1] at h
+  simp only [Prod.mk.injEq] at h
+  rw [← h.1, hc1]
+
+
+instance lvOKDec (sch : Schema) (K : Core) (pid n0 J : Nat) : (L : List (Nat × List (Nat × In))) → Decidable (LvOK sch K pid n0 J L)
+  | [] => isTrue trivial
+  | (c, kw) :: anc => by
+    unfold LvOK
+    have := lvOKDec sch K pid n0 J anc
+    infer_instance
+
+theorem hit_some_ne (i : Inj) (n : Nat) (h : n ≠ i.k) : hit (some i) n = none := by
+  simp [hit]; intro h'; exact absurd h'.symm h
+
+/-- **No orphan ancestor row, any depth, any k.**  The chain as in `ChainSyn`, its classes distinct;
+    the injected error (if any) falls on the INSERT of a level that is reached — every level before
+    it has valid values and an accepted INSERT — (`LvOK`; in particular not on a read-back SELECT).
+    Then a failing create — whatever failed first: a value, a constraint, the injected error of
+    whatever exception class — is a no-op. -/
+theorem C06_inheritable_create_insert_failure_cleaned_any_k (sch : Schema) (s s' : St)
+    (L : List (Nat × List (Nat × In))) (i : Inj) (e : Err) (hS : ChainSyn sch s L)
+    (hnd : (L.map (·.1)).Nodup) (hok : LvOK sch s.core (s.seqs.getD (rootOf L) 0 + 1) 0 i.k L)
+    (h : step sch s (.createChain L) (some i) = (s', some e)) : s'.core = s.core := by
+  obtain ⟨hne, hch, hdeps, hlen, hfr⟩ := hS
+  have hstep : step sch s (.createChain L) (some i) =
+      run sch (some i) (createInh sch (fuelOf s) L fun _ => .done) { s with n := 0, log := [] } := rfl
+  rcases createInh_casesJD sch (some i) i.k (fun n hn => hit_some_ne i n hn) (fuelOf s) (L.map (·.1)) hdeps L hne hch hnd
+    (fun _ h => h) hlen (fun _ => .done) { s with n := 0, log := [] } hfr hok with ⟨s1, e1, h1, hc1⟩ | ⟨s1, h1, _, _, _⟩
+  · rw [hstep, h1] at h
+    simp only [Prod.mk.injEq] at h
+    rw [← h.1, hc1]
+  · rw [hstep, h1] at h
+    simp [run] at h
+
+
+/-! ## the syntactic version of `Atomic`, and exactly what it leaves out -/
+
+/-- the conditions on an inheritable create, for an optional injected error -/
+def ChainOKk (sch : Schema) (s : St) (L : List (Nat × List (Nat × In))) (inj : Option Inj) : Prop :=
+  ChainSyn sch s L ∧ (L.map (·.1)).Nodup ∧
+  match inj with
+  | none => True
+  | some i => LvOK sch s.core (s.seqs.getD (rootOf L) 0 + 1) 0 i.k L
+
+instance (sch : Schema) (s : St) (L : List (Nat × List (Nat × In))) (inj : Option Inj) :
+    Decidable (ChainOKk sch s L inj) := by
+  unfold ChainOKk; cases inj <;> infer_instance
+
+/-- `Atomic` without running the model: every clause is read off the operation, the schema, the
+    tables and the injected index `k`. -/
+def AtomicSyn (sch : Schema) (s : St) (op : Op) (inj : Option Inj) : Prop :=
+  match op with
+  | .setattr _ _ _ _ => True
+  | .set c _ kw ex => allOk kw = false ∨
+      (noFk ex = true ∧ ((clsOf sch c).lazy = true → hasUnknown ex = true ∨ extrasErr ex = none))
+  | .sync _ _ => True
+  | .create _ _ _ _ => hit inj 2 = none
+  | .createChild c pkw ckw =>
+    match (clsOf sch c).parent with
+    | some p => ChainOKk sch s [(c, ckw), (p, pkw)] inj ∨ (hit inj 1).isSome = true
+    | none => hit inj 2 = none
+  | .createChain L => L = [] ∨ ChainOKk sch s L inj ∨ (hit inj 1).isSome = true
+  | .destroy c id => DestroySyn sch s c id inj
+
+instance (sch : Schema) (s : St) (op : Op) (inj : Option Inj) : Decidable (AtomicSyn sch s op inj) := by
+  unfold AtomicSyn
+  cases op with
+  | createChild c pkw ckw => simp only; cases (clsOf sch c).parent <;> infer_instance
+  | _ => infer_instance
+
+theorem chain_noop (sch : Schema) (s s' : St) (L : List (Nat × List (Nat × In))) (inj : Option Inj) (e : Err)
+    (hA : L = [] ∨ ChainOKk sch s L inj ∨ (hit inj 1).isSome = true)
+    (h : step sch s (.createChain L) inj = (s', some e)) : s'.core = s.core := by
+  rcases hA with hnil | hok | hhit
+  · subst hnil
+    simp [step, progOf, createInh, run] at h
+  · obtain ⟨hS, hnd, hlv⟩ := hok
+    cases inj with
+    | none => exact C06_inheritable_create_child_insert_failure_cleaned sch s s' L e hS h
+    | some i => exact C06_inheritable_create_insert_failure_cleaned_any_k sch s s' L i e hS hnd hlv h
+  · by_cases hne : L = []
+    · subst hne; simp [step, progOf, createInh, run] at h
+    · obtain ⟨e0, he0⟩ := Option.isSome_iff_exists.mp hhit
+      exact C06_inheritable_create_root_insert_failure_noop sch s s' L inj e e0 hne he0 h
+
+/-- **C06, syntactic.**  For every schema, state, operation and injected error satisfying
+    `AtomicSyn`, an operation that raises is a no-op. -/
+theorem C06_failed_op_is_noop_syntactic (sch : Schema) (s s' : St) (op : Op) (inj : Option Inj) (e : Err)
+    (hA : AtomicSyn sch s op inj) (h : step sch s op inj = (s', some e)) : s'.core = s.core := by
+  cases op with
+  | setattr c id col v => exact C06_failed_op_is_noop_partial sch s s' _ inj e (.inr trivial) h
+  | set c id kw ex =>
+    rcases hA with hbad | hA
+    · exact setProg_invalid_noop sch inj c id kw ex .done { s with n := 0, log := [] } s' _ hbad h
+    · exact C06_failed_op_is_noop_partial sch s s' _ inj e (.inr hA) h
+  | sync c id => exact C06_failed_op_is_noop_partial sch s s' _ inj e (.inr trivial) h
+  | create c missing kw ex => exact C06_failed_op_is_noop_partial sch s s' _ inj e (.inr hA) h
+  | createChain L => exact chain_noop sch s s' L inj e hA h
+  | destroy c id => exact C06_destroy_noop_syntactic sch s s' c id inj e hA h
+  | createChild c pkw ckw =>
+    simp only [AtomicSyn] at hA
+    cases hp : (clsOf sch c).parent with
+    | none =>
+      rw [hp] at hA
+      have : step sch s (.createChild c pkw ckw) inj = step sch s (.create c false ckw []) inj := by
+        simp [step, progOf, hp]
+      rw [this] at h
+      exact C06_failed_op_is_noop_partial sch s s' _ inj e (.inr hA) h
+    | some p =>
+      rw [hp] at hA
+      have : step sch s (.createChild c pkw ckw) inj = step sch s (.createChain [(c, ckw), (p, pkw)]) inj := by
+        simp [step, progOf, hp, createChildProg]
+      rw [this] at h
+      exact chain_noop sch s s' _ inj e (.inr hA) h
+
+
+/-- what `ChainOKk` leaves out for a non-empty chain whose first statement is not the one hit:
+    the chain is not covered by `ChainSyn` (a class is not the inheritable child of the next, a class
+    of the chain references another one, something already carries or references the new id …), or a
+    class occurs twice, or the injected error falls on a read-back SELECT, on a statement of the
+    clean-up, or behind a level that fails by itself (¬ `LvOK`).
+    Known findings in this region: `C06:inheritable-create-db-error-after-insert`,
+    `C06:inheritable-create-cleanup-fails`. -/
+def ChainGap (sch : Schema) (s : St) (L : List (Nat × List (Nat × In))) (inj : Option Inj) : Prop :=
+  (hit inj 1).isSome = false ∧
+  (¬ ChainSyn sch s L ∨ ¬ (L.map (·.1)).Nodup ∨
+   ∃ i, inj = some i ∧ ¬ LvOK sch s.core (s.seqs.getD (rootOf L) 0 + 1) 0 i.k L)
+
+/-- what `DestroySyn` leaves out: an inheritable victim (its parent row is deleted first:
+    `C06:inheritable-destroySelf-fails-after-parent-row-deleted`), a victim with link rows of its own,
+    or — for every prefix of the registry whose classes have nothing to do — the next class does not
+    refuse quietly, the injected error does not fall on the statements sent so far, and the prefix
+    is not the whole registry: something effective precedes the failure
+    (`C06:destroySelf-refused-after-partial-cascade`, `C06:destroySelf-db-error-mid-cascade`). -/
+def DestroyGap (sch : Schema) (s : St) (c id : Nat) (inj : Option Inj) : Prop :=
+  (hit inj 1).isSome = false ∧
+  ((clsOf sch c).parent ≠ none ∨
+  ((clsOf sch c).joins.all fun j => linksQuiet s.core j.tab j.side id) = false ∨
+  ∀ m ∈ List.range (sch.length + 1),
+    (∀ kidx ∈ List.range m, EntryPasses sch s.core c id kidx = true) →
+    ¬ (m < sch.length ∧ EntryLinksQuiet sch s.core c id m = true ∧ EntryRefuses sch s.core c id m = true) ∧
+    ¬ (match inj with
+       | some i => 0 < i.k ∧ i.k ≤ (clsOf sch c).joins.length + loopCnt sch c (List.range m) +
+           headCnt sch s.core c id (List.range' m (sch.length - m)) + 1
+       | none => False) ∧
+    m ≠ sch.length)
+
+/-- the complement of `AtomicSyn`, spelled out per operation kind -/
+def NonAtomicShape (sch : Schema) (s : St) (op : Op) (inj : Option Inj) : Prop :=
+  match op with
+  | .setattr _ _ _ _ => False
+  | .sync _ _ => False
+  | .set c _ kw ex =>
+    -- every value validates, and: a ForeignKey given by object
+    -- (`C06:set-fk-by-object-written-before-failing-update`), or a property setter of the
+    -- application raising inside a lazy `set()` (outside the property)
+    allOk kw = true ∧
+    (noFk ex = false ∨ ((clsOf sch c).lazy = true ∧ hasUnknown ex = false ∧ (extrasErr ex).isSome = true))
+  | .create _ _ _ _ => (hit inj 2).isSome = true      -- `C06:create-db-error-after-insert`
+  | .createChild c pkw ckw =>
+    match (clsOf sch c).parent with
+    | some p => ChainGap sch s [(c, ckw), (p, pkw)] inj
+    | none => (hit inj 2).isSome = true
+  | .createChain L => L ≠ [] ∧ ChainGap sch s L inj
+  | .destroy c id => DestroyGap sch s c id inj
+
+theorem not_chainOKk_iff (sch : Schema) (s : St) (L : List (Nat × List (Nat × In))) (inj : Option Inj) :
+    ¬ (ChainOKk sch s L inj ∨ (hit inj 1).isSome = true) ↔ ChainGap sch s L inj := by
+  unfold ChainGap ChainOKk
+  constructor
+  · intro h
+    have h1 : ¬ (hit inj 1).isSome = true := fun x => h (.inr x)
+    refine ⟨by simpa using h1, ?_⟩
+    by_cases hS : ChainSyn sch s L
+    · by_cases hN : (L.map (·.1)).Nodup
+      · right; right
+        cases inj with
+        | none => exact absurd (.inl ⟨hS, hN, trivial⟩) h
+        | some i => exact ⟨i, rfl, fun hl => h (.inl ⟨hS, hN, hl⟩)⟩
+      · exact .inr (.inl hN)
+    · exact .inl hS
+  · intro ⟨h1, h2⟩ h
+    rcases h with ⟨hS, hN, hl⟩ | hh
+    · rcases h2 with h2 | h2 | ⟨i, hi, h2⟩
+      · exact h2 hS
+      · exact h2 hN
+      · subst hi; exact h2 hl
+    · rw [h1] at hh; cases hh
+
+theorem not_destroySyn_iff (sch : Schema) (s : St) (c id : Nat) (inj : Option Inj) :
+    ¬ DestroySyn sch s c id inj ↔ DestroyGap sch s c id inj := by
+  unfold DestroySyn DestroyGap
+  constructor
+  · intro h
+    have h1 : ¬ (hit inj 1).isSome = true := fun x => h (.inl x)
+    refine ⟨by simpa using h1, ?_⟩
+    by_cases hA : (clsOf sch c).parent = none
+    · by_cases hB : ((clsOf sch c).joins.all fun j => linksQuiet s.core j.tab j.side id) = true
+      · right; right
+        intro m hm hP
+        have hQ : ¬ _ := fun hQ => h (.inr ⟨hA, hB, m, hm, hP, hQ⟩)
+        simp only [not_or] at hQ
+        exact hQ
+      · exact .inr (.inl (by simpa using hB))
+    · exact .inl hA
+  · intro ⟨h1, h⟩ hS
+    rcases hS with hS | ⟨hA, hB, m, hm, hP, hQ⟩
+    · rw [h1] at hS; cases hS
+    rcases h with h | h | h
+    · exact h hA
+    · rw [hB] at h; cases h
+    · have := h m hm hP
+      rcases hQ with hQ | hQ | hQ
+      · exact this.1 hQ
+      · exact this.2.1 hQ
+      · exact this.2.2 hQ
+
+/-- **The gap, exactly.**  `AtomicSyn` fails precisely in the listed shapes. -/
+theorem C06_nonatomic_cases_exactly (sch : Schema) (s : St) (op : Op) (inj : Option Inj) :
+    ¬ AtomicSyn sch s op inj ↔ NonAtomicShape sch s op inj := by
+  cases op with
+  | setattr c id col v => simp [AtomicSyn, NonAtomicShape]
+  | sync c id => simp [AtomicSyn, NonAtomicShape]
+  | set c id kw ex =>
+    simp only [AtomicSyn, NonAtomicShape]
+    constructor
+    · intro h
+      have hok : allOk kw = true := by
+        cases hk : allOk kw with
+        | true => rfl
+        | false => exact absurd (.inl hk) h
+      refine ⟨hok, ?_⟩
+      have h : ¬ (noFk ex = true ∧ ((clsOf sch c).lazy = true → hasUnknown ex = true ∨ extrasErr ex = none)) :=
+        fun x => h (.inr x)
+      by_cases h1 : noFk ex = true
+      · right
+        by_cases hl : (clsOf sch c).lazy = true
+        · refine ⟨hl, ?_, ?_⟩
+          · cases hu : hasUnknown ex with
+            | false => rfl
+            | true => exact absurd ⟨h1, fun _ => .inl hu⟩ h
+          · cases he : extrasErr ex with
+            | none => exact absurd ⟨h1, fun _ => .inr he⟩ h
+            | some e => rfl
+        · exact absurd ⟨h1, fun hl' => absurd hl' hl⟩ h
+      · exact .inl (by simpa using h1)
+    · intro ⟨hok, h⟩ hA
+      rcases hA with hbad | ⟨h1, h2⟩
+      · rw [hok] at hbad; cases hbad
+      rcases h with h | ⟨hl, hu, he⟩
+      · rw [h1] at h; cases h
+      · rcases h2 hl with h2 | h2
+        · rw [hu] at h2; cases h2
+        · rw [h2] at he; cases he
+  | create c missing kw ex =>
+    simp only [AtomicSyn, NonAtomicShape]
+    cases hit inj 2 <;> simp
+  | createChain L =>
+    simp only [AtomicSyn, NonAtomicShape]
+    rw [← not_chainOKk_iff]
+    constructor
+    · intro h; exact ⟨fun hn => h (.inl hn), fun hx => h (.inr hx)⟩
+    · intro ⟨h1, h2⟩ h
+      rcases h with h | h
+      · exact h1 h
+      · exact h2 h
+  | destroy c id => exact not_destroySyn_iff sch s c id inj
+  | createChild c pkw ckw =>
+    simp only [AtomicSyn, NonAtomicShape]
+    cases (clsOf sch c).parent with
+    | none => simp only; cases hit inj 2 <;> simp
+    | some p => exact not_chainOKk_iff sch s _ inj
+
+/-- every failing call that changed anything lies in one of the listed shapes -/
+theorem C06_nonatomic_only_in_listed_shapes (sch : Schema) (s s' : St) (op : Op) (inj : Option Inj) (e : Err)
+    (h : step sch s op inj = (s', some e)) (hne : s'.core ≠ s.core) : NonAtomicShape sch s op inj := by
+  rw [← C06_nonatomic_cases_exactly]
+  intro hA
+  exact hne (C06_failed_op_is_noop_syntactic sch s s' op inj e hA h)
+
+/-! ## non-vacuity of the syntactic conditions -/
+
+/-- the restricting class is first in the registry: `DestroySyn` holds and the call is refused -/
+example : AtomicSyn [{ cols := [{}] }, { cols := [{ fk := some (0, .restrict) }] }, { cols := [{ fk := some (0, .null) }] }]
+      W1.s (.destroy 0 1) none ∧
+    (step [{ cols := [{}] }, { cols := [{ fk := some (0, .restrict) }] }, { cols := [{ fk := some (0, .null) }] }]
+      W1.s (.destroy 0 1) none).2 = some .integrity := by decide
+
+/-- nobody references the victim: every injected index is covered -/
+example : AtomicSyn [{ cols := [{}] }, { cols := [{ fk := some (0, .cascade) }] }]
+      (mkSt [[⟨1, [some 7]⟩], []] [inst 0 1 [some 7]]) (.destroy 0 1) (some ⟨2, .operational⟩) ∧
+    (step [{ cols := [{}] }, { cols := [{ fk := some (0, .cascade) }] }]
+      (mkSt [[⟨1, [some 7]⟩], []] [inst 0 1 [some 7]]) (.destroy 0 1) (some ⟨2, .operational⟩)).2 = some .operational := by decide
+
+/-- `W1` itself (C nulled before D refuses) is in the gap -/
+example : NonAtomicShape W1.sch W1.s (.destroy 0 1) none :=
+  (C06_nonatomic_cases_exactly _ _ _ _).mp (by decide)
+
+/-- three levels, duplicate key at the leaf; and a KeyboardInterrupt at the middle level's INSERT -/
+example : AtomicSyn (W5.sch ++ [{ cols := [{ unique := true }], parent := some 1 }])
+      (mkSt [[⟨1, [some 1, some 1]⟩], [⟨1, [some 1, some 2]⟩], [⟨1, [some 5]⟩]]
+        [inst 0 1 [some 1, some 1], inst 1 1 [some 1, some 2], inst 2 1 [some 5]])
+      (.createChain [(2, [(0, .ok (some 5))]), (1, [(0, .ok (some 2)), (1, .ok (some 2))]),
+                     (0, [(0, .ok (some 2)), (1, .ok (some 1))])]) none := by decide
+
+example : AtomicSyn (W5.sch ++ [{ cols := [{ unique := true }], parent := some 1 }])
+      (mkSt [[⟨1, [some 1, some 1]⟩], [⟨1, [some 1, some 2]⟩], [⟨1, [some 5]⟩]]
+        [inst 0 1 [some 1, some 1], inst 1 1 [some 1, some 2], inst 2 1 [some 5]])
+      (.createChain [(2, [(0, .ok (some 6))]), (1, [(0, .ok (some 2)), (1, .ok (some 2))]),
+                     (0, [(0, .ok (some 2)), (1, .ok (some 1))])]) (some ⟨3, .interrupt⟩) := by decide
+
+/-- … while the read-back SELECT of the middle level (statement 4) is in the gap -/
+example : NonAtomicShape (W5.sch ++ [{ cols := [{ unique := true }], parent := some 1 }])
+      (mkSt [[⟨1, [some 1, some 1]⟩], [⟨1, [some 1, some 2]⟩], [⟨1, [some 5]⟩]]
+        [inst 0 1 [some 1, some 1], inst 1 1 [some 1, some 2], inst 2 1 [some 5]])
+      (.createChain [(2, [(0, .ok (some 6))]), (1, [(0, .ok (some 2)), (1, .ok (some 2))]),
+                     (0, [(0, .ok (some 2)), (1, .ok (some 1))])]) (some ⟨4, .operational⟩) :=
+  (C06_nonatomic_cases_exactly _ _ _ _).mp (by decide)
+
+
+theorem fkCols_pol (cols : List Col) (t : Nat) : ∀ a ∈ fkCols cols t, a.2 ≠ Pol.none := by
+  intro a ha
+  unfold fkCols at ha
+  obtain ⟨jc, _, hjc⟩ := List.mem_filterMap.mp ha
+  split at hjc
+  · rename_i t' p _
+    split at hjc
+    · rename_i hcond
+      cases hjc
+      simp only [Bool.and_eq_true, bne_iff_ne, ne_eq] at hcond
+      exact hcond.2
+    · cases hjc
+  · cases hjc
+
+theorem refRows_nil_of_only_restrict (K : Core) (fk : List (Nat × Pol)) (kidx vid : Nat)
+    (hp : ∀ a ∈ fk, a.2 ≠ Pol.none) (hn : nullCols fk = []) (hc : hasCascade fk = false)
+    (hr : restrictingRowsK K fk kidx vid = false) : refRowsK K fk kidx vid = [] := by
+  have hall : restrictCols fk = fk := by
+    unfold restrictCols
+    apply List.filter_eq_self.mpr
+    intro a ha
+    cases hpol : a.2 with
+    | none => exact absurd hpol (hp a ha)
+    | restrict => rfl
+    | null =>
+      have : a.1 ∈ nullCols fk := by
+        unfold nullCols
+        exact List.mem_map.mpr ⟨a, List.mem_filter.mpr ⟨ha, by simp [hpol]⟩, rfl⟩
+      rw [hn] at this; cases this
+    | cascade =>
+      have : hasCascade fk = true := by
+        unfold hasCascade
+        exact List.any_eq_true.mpr ⟨a, ha, by simp [hpol]⟩
+      rw [hc] at this; cases this
+  unfold refRowsK
+  unfold restrictingRowsK at hr
+  rw [hall] at hr
+  rw [List.filter_eq_nil_iff]
+  intro row hrow hrefs
+  have : ((K.tabs.getD kidx []).any fun r => rowRefs fk vid r.vals) = true :=
+    List.any_eq_true.mpr ⟨row, hrow, hrefs⟩
+  rw [this] at hr; cases hr
+
+/-- every class before `r` has only `cascade=False` keys (or none) to the victim's class -/
+def OnlyRestrictBefore (sch : Schema) (c r : Nat) : Prop :=
+  ∀ kidx ∈ List.range r, nullCols (entryFk sch c kidx) = [] ∧ hasCascade (entryFk sch c kidx) = false
+
+theorem range_split_at (n m : Nat) (h : m < n) :
+    List.range n = List.range m ++ m :: List.range' (m + 1) (n - m - 1) := by
+  rw [range_split n m (by omega)]
+  obtain ⟨k, hk⟩ : ∃ k, n - m = k + 1 := ⟨n - m - 1, by omega⟩
+  rw [hk, List.range'_succ]
+  simp
+
+/-- **A refused `destroySelf` is a no-op iff nothing effective precedes the refusing class** — here for
+    the registries in which the classes before the first refusing one `r` hold only `cascade=False`
+    keys to the victim's class, so that the only thing that can precede the refusal is the deletion
+    of related-join link rows: the refused call changed nothing iff neither the victim nor any class
+    up to `r` has a link row mentioning the victim. -/
+theorem C06_destroy_refused_noop_iff (sch : Schema) (s s' : St) (c id r : Nat) (e : Err)
+    (hpar : (clsOf sch c).parent = none) (hr : r < sch.length)
+    (hfirst : ∀ kidx ∈ List.range r, EntryRefuses sch s.core c id kidx = false)
+    (hrefuse : EntryRefuses sch s.core c id r = true)
+    (honly : OnlyRestrictBefore sch c r)
+    (h : step sch s (.destroy c id) none = (s', some e)) :
+    s'.core = s.core ↔
+      (((clsOf sch c).joins.all fun j => linksQuiet s.core j.tab j.side id) = true ∧
+       ∀ kidx ∈ List.range (r + 1), EntryLinksQuiet sch s.core c id kidx = true) := by
+  have hstep : step sch s (.destroy c id) none =
+      run sch none (destroyProg sch ((s.core.tabs.map List.length).sum + 2 + 1) c id .done) { s with n := 0, log := [] } := rfl
+  -- a class before `r` whose link rows are quiet has nothing to do
+  have hpass : ∀ kidx ∈ List.range r, EntryLinksQuiet sch s.core c id kidx = true → EntryPasses sch s.core c id kidx = true := by
+    intro kidx hk hl
+    simp only [EntryPasses, Bool.and_eq_true, List.isEmpty_iff]
+    exact ⟨hl, refRows_nil_of_only_restrict s.core _ kidx id (fkCols_pol _ _) (honly kidx hk).1 (honly kidx hk).2 (hfirst kidx hk)⟩
+  constructor
+  · intro heq
+    have hown : ((clsOf sch c).joins.all fun j => linksQuiet s.core j.tab j.side id) = true := by
+      cases hh : ((clsOf sch c).joins.all fun j => linksQuiet s.core j.tab j.side id) with
+      | true => rfl
+      | false =>
+        rw [hstep] at h
+        exact absurd heq (destroy_own_links_changed sch _ c id .done { s with n := 0, log := [] } s' _ hpar hh h)
+    refine ⟨hown, ?_⟩
+    -- by induction: every class up to `m` is quiet
+    have key : ∀ m, m ≤ r + 1 → ∀ kidx ∈ List.range m, EntryLinksQuiet sch s.core c id kidx = true := by
+      intro m
+      induction m with
+      | zero => intro _ kidx hk; simp at hk
+      | succ m ih =>
+        intro hm kidx hk
+        have ihm := ih (by omega)
+        by_cases hlt : kidx < m
+        · exact ihm kidx (by simpa using hlt)
+        · have hkm : kidx = m := by simp at hk; omega
+          subst hkm
+          cases hh : EntryLinksQuiet sch s.core c id kidx with
+          | true => rfl
+          | false =>
+            rw [hstep] at h
+            exact absurd heq (destroy_entry_links_changed sch _ c id { s with n := 0, log := [] } s' _
+              (List.range kidx) kidx (List.range' (kidx + 1) (sch.length - kidx - 1)) hpar
+              (range_split_at _ _ (by omega)) hown
+              (fun j hj => hpass j (by simp at hj ⊢; omega) (ihm j hj)) hh h)
+    exact key (r + 1) (Nat.le_refl _)
+  · intro ⟨hown, hall⟩
+    rw [hstep] at h
+    exact destroy_noop_syn sch none _ c id { s with n := 0, log := [] } s' e
+      (List.range r) (r :: List.range' (r + 1) (sch.length - r - 1)) hpar (range_split_at _ _ hr) hown
+      (fun kidx hk => hpass kidx hk (hall kidx (by simp at hk ⊢; omega)))
+      (.inl ⟨r, _, rfl, hall r (by simp), hrefuse⟩) h
+
+/-- non-vacuity of the iff: victim `A#1` with a related join whose link table holds `(1, 5)`, class `D`
+    referencing it with `cascade=False`: the hypotheses hold with `r = 1`, the call is refused, the
+    right-hand side is false and indeed the link row is gone -/
+example :
+    let sch : Schema := [{ cols := [{}], joins := [⟨0, 2, false⟩] }, { cols := [{ fk := some (0, .restrict) }] }, { cols := [{}] }]
+    let s : St := { (mkSt [[⟨1, [some 7]⟩], [⟨1, [some 1]⟩], []] [inst 0 1 [some 7], inst 1 1 [some 1]]) with
+                    core := { (mkSt [[⟨1, [some 7]⟩], [⟨1, [some 1]⟩], []] [inst 0 1 [some 7], inst 1 1 [some 1]]).core with links := [[(1, 5)]] } }
+    (clsOf sch 0).parent = none ∧ EntryRefuses sch s.core 0 1 1 = true ∧ EntryRefuses sch s.core 0 1 0 = false ∧
+    OnlyRestrictBefore sch 0 1 ∧ (step sch s (.destroy 0 1) none).2 = some .integrity ∧
+    ((clsOf sch 0).joins.all fun j => linksQuiet s.core j.tab j.side 1) = false ∧
+    (step sch s (.destroy 0 1) none).1.core.links = [[]] := by
+  refine ⟨rfl, by decide, by decide, ?_, by decide, by decide, by decide⟩
+  intro kidx hk
+  simp at hk; subst hk
+  decide
+
 end SqlObjVerif.Fail
